@@ -78,6 +78,17 @@ def concretise(m, idx, outcome, dump):
         if m["select"] == "route" and i == 1:
             cfg["roles"] = {"primary": "prov/model-x"}
         text = json.dumps(cfg, indent=1)
+        if m["bad"][0] == i:
+            secrets[f"malformed_{LAYER[i]}"] = canary(f"M{i}x{idx}")
+            mc = secrets[f"malformed_{LAYER[i]}"]
+            if m["bad"][1] == "badjson":
+                text = '{"provider": {"prov": {"api_key": "%s" "endpoint": "%s"}}}' % (mc, ep)
+            elif m["bad"][1] == "misplaced":
+                bad_cfg = dict(cfg, provider={"api_key": mc, "endpoint": ep})
+                text = json.dumps(bad_cfg, indent=1)
+            else:
+                bad_cfg = dict(cfg, provider={"prov": dict(prov, headers="Bearer " + mc)})
+                text = json.dumps(bad_cfg, indent=1)
         if i == 2:
             text = "// custom layer\n" + text       # jsonc
         layers[LAYER[i]] = text
@@ -133,11 +144,11 @@ def run(tier, seed):
     rnd = random.Random(seed)
     groups = {}
     for m in g.cases:
-        groups.setdefault((m["select"], m["source"], m["envkey"], m["openai"], len(m["headers"])), []).append(m)
+        groups.setdefault((m["select"], m["source"], m["envkey"], m["openai"], len(m["headers"]), m["bad"][1], m["bad"][0] if m["bad"][1] != "none" else 0), []).append(m)
     keys = sorted(groups, key=str)
     for k in keys:
         rnd.shuffle(groups[k])
-    n = 2400 if thorough else 260
+    n = 3000 if thorough else 420
     sel = []
     i = 0
     while len(sel) < n and any(groups[k] for k in keys):
@@ -177,7 +188,7 @@ def run(tier, seed):
             if extra:
                 v.violation(f"case {c['id']}: doctor reports unexpected fields {sorted(extra)}", {"engine": "secrets", "case": pub, "sink": "doctor_fields"})
         # ---- the predicted key and headers really went to the provider (the search is not vacuous)
-        if c["_outcome"] != "transport":
+        if c["_outcome"] != "transport" and m["endpoint_known"]:
             if not res["requests"]:
                 v.drift({"case": c["id"], "note": "the provider received no request"})
             else:
